@@ -203,6 +203,7 @@ func runC17(c *Ctx) {
 	ruleCRCExtraPreimage(c, "R17.8")
 	ruleTypeAdmission(c, "R17.9")
 	ruleCodecCaches(c, "R17.10")
+	ruleInitExaminesAll(c, "R17.11")
 }
 
 func sameTags(a, b *types.Named) bool {
@@ -217,4 +218,96 @@ func sameTags(a, b *types.Named) bool {
 		}
 	}
 	return true
+}
+
+// ruleInitExaminesAll (R17.11): dialect.ReadWriter.Initialize reports success only after it has gone through the
+// messages. A success return that can be reached without entering the loop over Dialect.Messages is accepted only as
+// an idempotence guard on a field that is assigned exclusively after the loop completed; a guard on state that is set
+// before or during the loop (e.g. the table itself, allocated up front) turns a failed first call into a successful
+// second one: the malformed dialect is accepted and lookups silently miss.
+func ruleInitExaminesAll(c *Ctx, rule string) {
+	r := c.R
+	r.Rule(rule, "dialect.ReadWriter.Initialize returns nil only after the loop over Dialect.Messages (duplicate ids, codec construction) has run to completion, or under a guard on a field that is assigned only after that loop", 1)
+	ini := c.Fn("pkg/dialect", "ReadWriter.Initialize")
+	if ini == nil {
+		return
+	}
+	// the loop: blocks from which the insertion into messageRWs is reachable and that the insertion reaches
+	var ins *ssa.MapUpdate
+	for _, in := range allInstrs(ini) {
+		if mu, ok := in.(*ssa.MapUpdate); ok && inLoop(mu.Block()) {
+			ins = mu
+		}
+	}
+	if ins == nil {
+		r.Broken(rule, "Initialize loop", "no insertion inside a loop found in dialect.ReadWriter.Initialize")
+		return
+	}
+	loop := map[*ssa.BasicBlock]bool{}
+	from := reachFrom(ins.Block(), nil, nil)
+	for _, b := range ini.Blocks {
+		if (b == ins.Block() || from[b]) && (b == ins.Block() || reachFrom(b, nil, nil)[ins.Block()]) {
+			loop[b] = true
+		}
+	}
+	bad := ""
+	for _, ret := range retInstrs(ini) {
+		if len(ret.Results) != 1 || !isNilConst(ret.Results[0]) {
+			continue
+		}
+		// reachable from the entry without entering the loop?
+		if !reachFrom(ini.Blocks[0], nil, loop)[ret.Block()] && ret.Block() != ini.Blocks[0] {
+			continue
+		}
+		// every guard on the way must test a field that is stored only after the loop
+		okGuard := false
+		for _, iff := range ifsIn(ini) {
+			if loop[iff.Block()] || !(edgeMustPass(ini, edge{iff.Block(), iff.Block().Succs[0]}, ret.Block()) || edgeMustPass(ini, edge{iff.Block(), iff.Block().Succs[1]}, ret.Block())) {
+				continue
+			}
+			var fld *types.Var
+			var walk func(v ssa.Value, d int)
+			walk = func(v ssa.Value, d int) {
+				if d > 5 || v == nil {
+					return
+				}
+				if u, ok := v.(*ssa.UnOp); ok && u.Op == token.MUL {
+					if f, _ := fieldOfAddr(u.X); f != nil {
+						fld = f
+					}
+				}
+				if in, ok := v.(ssa.Instruction); ok {
+					for _, op := range in.Operands(nil) {
+						walk(*op, d+1)
+					}
+				}
+			}
+			walk(iff.Cond, 0)
+			if fld == nil {
+				continue
+			}
+			lateOnly, n := true, 0
+			for _, in := range allInstrs(ini) {
+				st, ok := in.(*ssa.Store)
+				if !ok {
+					continue
+				}
+				if f, _ := fieldOfAddr(st.Addr); f == fld {
+					n++
+					if loop[st.Block()] || reachFrom(st.Block(), nil, nil)[ins.Block()] {
+						lateOnly = false
+					}
+				}
+			}
+			if n > 0 && lateOnly {
+				okGuard = true
+			} else {
+				bad = "success is returned at " + c.Pos(ret.Pos()) + " without examining the messages, under a test of " + fld.Name() + ", which is assigned before the loop over the messages has completed: after a failed Initialize a second call reports success"
+			}
+		}
+		if !okGuard && bad == "" {
+			bad = "success is returned at " + c.Pos(ret.Pos()) + " without the loop over Dialect.Messages having run"
+		}
+	}
+	r.Check(bad == "", rule, "Initialize success only after the loop", c.Pos(ini.Pos()), "every `return nil` lies behind the loop over the messages", bad)
 }
